@@ -40,6 +40,9 @@ typedef struct channel {
 	const struct channel* prev;
 	/* point substitution helper */
 	size_t field_len;      /* l/4 octets per coordinate */
+	int point_off[2][3];   /* offset of the curve point in message (dir, ord), -1 = none */
+	const octet* curve_yG; /* y coordinate of the base point (x = 0) */
+	int xonly;             /* the protocol uses only x coordinates of exchanged points (BPACE): P -> -P is not an alteration it can see */
 	const octet* curve_p;
 	const octet* own_point[2];
 } channel;
